@@ -28,7 +28,7 @@ m = {
     'checks': checks,
     'not_applicable': [{'property_id': k, 'reason': v} for k, v in NOT_APPLICABLE.items()],
     'notes': 'Static analysis only: no check imports or runs /repo. Exit 0 holds / 1 VIOLATION / 2 ANALYSIS-ERROR '
-             '(anchor vanished, parse error). Genuine defects found on the pinned tree were repaired by fix: commits '
+             '(private anchor vanished, parse error, unclassified class in use, instance count below the confirmed floor with nothing else to report). Genuine defects found on the pinned tree were repaired by fix: commits '
              '(see KNOWN_FINDINGS.txt).',
 }
 json.dump(m, open(os.path.join(HERE, 'MANIFEST.json'), 'w'), indent=1)
